@@ -196,7 +196,8 @@ def cases(draw, maxlen=30):
         outside = draw(st.sampled_from([lo - 1.0, hi + 3.0]))
         span = (lo, hi)
     setting = {"lock_previous": draw(st.booleans()), "lock_range": draw(st.booleans()),
-               "default": draw(st.sampled_from([math.nan, inside, outside])), "min": lo, "max": hi}
+               "default": draw(st.sampled_from([math.nan, inside, outside, math.nan, inside, outside, math.inf, -math.inf])),
+               "min": lo, "max": hi}
     variant = draw(st.sampled_from(["scripted", "scripted", "engine"]))
     val = st.one_of(st.just(math.nan), st.just(math.nan), st.floats(*span),
                     st.sampled_from([span[0] - 0.5, span[1] + 0.5, span[0], span[1]]),
